@@ -160,10 +160,55 @@ def r_load(ctx, model):
                   explanation="the file pattern used to load a variable matches no file, another variable's file, or the volume-base file", key=f"{modname}.pattern")
 
 
+def dtype_from_geotherm(f):
+    """working arrays that take their element type from a column of the geotherm file (read by pandas: whole numbers give int64):
+    `*_like(<geotherm column>)` without a floating dtype, dtype=<column>.dtype, astype(<column>.dtype)"""
+    tainted = set()
+    for st in ast.walk(f):
+        if isinstance(st, ast.Assign) and isinstance(st.value, ast.Call) and (dotted_name(st.value.func) or "").split(".")[-1] in ("read_table", "read_csv", "read_fwf"):
+            tainted |= {t.id for t in st.targets if isinstance(t, ast.Name)}
+
+    def dep(e):
+        return any(isinstance(x, ast.Name) and x.id in tainted for x in ast.walk(e))
+    changed = True
+    while changed:
+        changed = False
+        for st in ast.walk(f):
+            if isinstance(st, ast.Assign) and dep(st.value) and not (isinstance(st.value, ast.Call) and any(kw.arg == "dtype" and "float" in src(kw.value) for kw in st.value.keywords)):
+                # arithmetic with floats (the spline's output) is not a column of the file any more: only plain views/copies carry the dtype
+                v = st.value
+                fname = (v.func.attr if isinstance(v.func, ast.Attribute) else (dotted_name(v.func) or "")) if isinstance(v, ast.Call) else ""
+                carries = isinstance(v, (ast.Name, ast.Subscript, ast.Attribute)) or fname.split(".")[-1] in ("to_numpy", "copy", "array", "asarray", "ravel", "squeeze", "values", "reshape")
+                if not carries:
+                    continue
+                for t in st.targets:
+                    if isinstance(t, ast.Name) and t.id not in tainted:
+                        tainted.add(t.id)
+                        changed = True
+    bad = []
+    for c in ast.walk(f):
+        if not isinstance(c, ast.Call):
+            continue
+        last = (dotted_name(c.func) or "").split(".")[-1]
+        floaty = any(kw.arg == "dtype" and "float" in src(kw.value) for kw in c.keywords)
+        if last in ("zeros_like", "empty_like", "ones_like", "full_like") and c.args and dep(c.args[0]) and not floaty:
+            bad.append(src(c)[:80])
+        for kw in c.keywords:
+            if kw.arg == "dtype" and isinstance(kw.value, ast.Attribute) and kw.value.attr == "dtype" and dep(kw.value.value):
+                bad.append(src(c)[:80])
+        if last == "astype" and c.args and isinstance(c.args[0], ast.Attribute) and c.args[0].attr == "dtype" and dep(c.args[0].value):
+            bad.append(src(c)[:80])
+    return bad
+
+
 def r_geotherm(ctx, model):
     ref = f"{GEO}:main"
     f = model.func(ref)
     w = model.where(ref, f)
+    inherited = dtype_from_geotherm(f)
+    ctx.check(not inherited, "no result array inherits its element type from a column of the geotherm file", w, expected="floating-point result arrays",
+              found="; ".join(inherited) or "none", explanation="interpolated values are stored in an array whose element type comes from a geotherm column: a geotherm "
+              "written in whole kelvins / gigapascals is read as integers and every interpolated value is truncated", key="geotherm.dtype")
     # option defaults from the click decorators
     defaults = {}
     for d in f.decorator_list:
